@@ -133,40 +133,46 @@ Theorem C06_ledger_without_nowrap_refuted : exists pc ps ops,
 Proof. exact ledger_without_nowrap_refuted. Qed.
 Print Assumptions C06_ledger_without_nowrap_refuted.
 
-(* The window loop of PopQos.  The translator reads from queue.go whether the refusal branch
-   undoes the charges already made; the theorem below is about the code that exists only if it does. *)
-Theorem C06_generated_popqos_rolls_back : popqos_rolls_back = true.
-Proof. reflexivity. Qed.
-Print Assumptions C06_generated_popqos_rolls_back.
+(* The window loop of PopQos.  The translator reads from queue.go whether the refusal branch undoes the
+   charges already made and whether windows without limits are skipped; the theorems below are about the
+   code that exists only if it rolls back and charges every window. *)
+Theorem C06_generated_popqos_shape : popqos_rolls_back = true /\ popqos_skips_inactive = false.
+Proof. split; reflexivity. Qed.
+Print Assumptions C06_generated_popqos_shape.
 
-(* All or nothing: the pop is allowed iff every active window admits (1, size); then exactly the
-   active windows are charged exactly (1, size); otherwise NO window is changed. *)
+(* All or nothing: the pop is allowed iff every window admits (1, size) (a window without limits always does);
+   then EVERY window is charged exactly (1, size); otherwise NO window is changed. *)
 Theorem C06_reserve_all_or_nothing : forall ws size,
   Forall qos_wf ws -> Forall (fun q => qos_no_wrap q 1 (body_size32 size) = true) ws ->
   let r := reserve true ws size in
-  (fst r = true -> snd r = map (charge_if_active (body_size32 size)) ws /\
-                   Forall (fun q => qos_is_active q = true -> qos_admits q 1 (body_size32 size) = true) ws) /\
-  (fst r = false -> snd r = ws /\
-                    Exists (fun q => qos_is_active q = true /\ qos_admits q 1 (body_size32 size) = false) ws).
+  (fst r = true -> snd r = map (fun q => qos_charged q 1 (body_size32 size)) ws /\
+                   Forall (fun q => qos_admits q 1 (body_size32 size) = true) ws) /\
+  (fst r = false -> snd r = ws /\ Exists (fun q => qos_admits q 1 (body_size32 size) = false) ws).
 Proof. exact reserve_all_or_nothing_h. Qed.
 Print Assumptions C06_reserve_all_or_nothing.
 
-(* settling a delivery that charged all its windows gives every window back exactly its share *)
+(* settling a delivery (Dec(1, size) on every window of its list) gives every window back exactly its share *)
 Theorem C06_release_all_after_reserve : forall ws size,
   Forall qos_wf ws -> Forall (fun q => qos_no_wrap q 1 (body_size32 size) = true) ws ->
-  Forall (fun q => qos_is_active q = true) ws ->
   fst (reserve true ws size) = true -> release_all (snd (reserve true ws size)) size = ws.
 Proof. exact release_all_after_reserve_h. Qed.
 Print Assumptions C06_release_all_after_reserve.
 
 Example C06_reserve_example :
   reserve true [mkQos 3 0 0 0; mkQos 0 0 0 0; mkQos 1 1 0 0] 5 = (false, [mkQos 3 0 0 0; mkQos 0 0 0 0; mkQos 1 1 0 0]) /\
-  reserve true [mkQos 3 0 0 0; mkQos 0 0 0 0; mkQos 2 1 9 2] 5 = (true, [mkQos 3 1 0 5; mkQos 0 0 0 0; mkQos 2 2 9 7]).
+  reserve true [mkQos 3 0 0 0; mkQos 0 0 0 0; mkQos 2 1 9 2] 5 = (true, [mkQos 3 1 0 5; mkQos 0 1 0 5; mkQos 2 2 9 7]).
 Proof. vm_compute. auto. Qed.
 
-(* F02 (fixed in /repo): the loop without the undo leaks the earlier windows' charge on every refusal. *)
+(* F02 (fixed in /repo eb7a732): the loop without the undo leaks the earlier windows' charge on every refusal. *)
 Theorem C06_reserve_without_rollback_refuted : exists ws size,
   Forall qos_wf ws /\ Forall (fun q => qos_no_wrap q 1 (body_size32 size) = true) ws /\
   fst (reserve false ws size) = false /\ snd (reserve false ws size) <> ws.
 Proof. exact reserve_without_rollback_leaks_h. Qed.
 Print Assumptions C06_reserve_without_rollback_refuted.
+
+(* F49 (fixed in /repo 9fdcd31): the loop that skipped windows without limits broke "settling frees exactly its own share". *)
+Theorem C06_reserve_skipping_inactive_refuted : exists ws size,
+  Forall qos_wf ws /\ Forall (fun q => qos_no_wrap q 1 (body_size32 size) = true) ws /\
+  fst (reserve_gen true true ws size) = true /\ release_all (snd (reserve_gen true true ws size)) size <> ws.
+Proof. exact reserve_skipping_breaks_release_h. Qed.
+Print Assumptions C06_reserve_skipping_inactive_refuted.
